@@ -150,7 +150,15 @@ def check(run):
              ('free-param-index-upper', 'const int[0,3] fp', 'int ctx_a[int[0,fp]];', 'system T;', True), ('free-param-index-lower', 'const int[0,3] fp', 'int ctx_a[int[fp,5]];', 'system T;', True),
              ('free-param-lower-via-const', 'const int[0,3] fp', 'const int lo = fp; int ctx_a[int[lo,5]];', 'system T;', True), ('free-param-upper-via-const', 'const int[0,3] fp', 'const int hi = fp; int ctx_a[int[0,hi]];', 'system T;', True),
              ('free-param-second-dim', 'const int[0,3] fp', 'int ctx_a[2][fp + 1];', 'system T;', True), ('free-param-typedef-lower', 'const int[0,3] fp', 'typedef int[fp,5] R; int ctx_a[R];', 'system T;', True),
-             ('free-param-index-plain', 'const int[0,3] fp', 'int ctx_a[int[1,5]]; int ctx_v = fp;', 'system T;', False)]
+             ('free-param-index-plain', 'const int[0,3] fp', 'int ctx_a[int[1,5]]; int ctx_v = fp;', 'system T;', False),
+             # the restriction must survive chains of partial instantiations of any depth, and vanish once the chain is closed
+             ('partial-chain2-array', 'const int[1,3] fp', 'int ctx_a[fp];', 'Q(const int[1,3] m) = T(m); R(const int[1,3] k) = Q(k); system R;', True),
+             ('partial-chain2-offset', 'const int[1,4] fp', 'int ctx_a[fp];', 'Q(const int[1,3] m) = T(m + 1); R(const int[1,2] k) = Q(k + 1); system R;', True),
+             ('partial-chain3-array', 'const int[1,3] fp', 'int ctx_a[fp];', 'Q(const int[1,3] m) = T(m); R(const int[1,3] k) = Q(k); S(const int[1,3] j) = R(j); system S;', True),
+             ('partial-chain3-mixed', 'const int a, const int[1,3] fp', 'int ctx_a[fp];', 'Q(const int[1,3] m) = T(1, m); R(const int[1,3] k) = Q(k); S(const int[1,3] j) = R(j); system S;', True),
+             ('partial-chain2-other-param', 'const int a, const int[1,3] fp', 'int ctx_a[a];', 'Q(const int[1,3] m) = T(2, m); R(const int[1,3] k) = Q(k); system R;', False),
+             ('partial-chain2-closed', 'const int[1,3] fp', 'int ctx_a[fp];', 'Q(const int[1,3] m) = T(m); R(const int[1,3] k) = Q(k); P = R(2); system P;', False),
+             ('partial-chain2-plain', 'const int[1,3] fp', 'int ctx_v = fp;', 'Q(const int[1,3] m) = T(m); R(const int[1,3] k) = Q(k); system R;', False)]
     for name, params, tdecl, sysl, _ in extra:
         sel = 's : int[0, fp]' if name == 'free-param-select' else 's : int[0,1]'
         xml = '''<?xml version="1.0" encoding="utf-8"?>
